@@ -456,7 +456,8 @@ impl Group for C14 {
                                 // the decoder is an input of the model; check it against what the harness built: the output
                                 // the closing transaction pays to us and its HTLC outputs must be the ones the monitor tracks
                                 for cid in [U, UC, UR, UN, UP] {
-                                    if ids.contains(&cid) {
+                                    // (only meaningful if the funding transaction is on the chain: otherwise the block is not a close)
+                                    if ids.contains(&cid) && (ids.contains(&F) || chain.iter().any(|b| b.contains(&F))) {
                                         let st = wd.state_json();
                                         let co_ = &st["closing_outpoints"];
                                         let (bo, bh) = wd.built[&cid].clone();
